@@ -72,8 +72,12 @@ def contShapeK : (ls nb : Bool) → List TK → Bool
 def stepShape (b : List Tok) : Bool := contShapeK true false (b.map (·.kind))
 
 /-- a single-line block: starts with `>>` or `=` and has no newline token -/
-def singleShape (b : List Tok) : Bool :=
-  b.head?.any (fun t => kIsMarker t.kind) && b.all (fun t => t.kind != .newline)
+def singleShapeK (ks : List TK) : Bool := ks.head?.any kIsMarker && ks.all (· != .newline)
+
+def singleShape (b : List Tok) : Bool := singleShapeK (b.map (·.kind))
+
+/-- the tokens of one block -/
+def blockShape (b : List Tok) : Bool := singleShape b || stepShape b
 
 theorem rtd_contShape_mid (L : List Tok) (hL : NoNL L) (nb : Bool) (Y : List TK) :
     contShapeK false nb (L.map (·.kind) ++ Y) =
@@ -250,5 +254,289 @@ theorem rtd_more_step : ∀ (n : Nat) (X : List Tok), X.length ≤ n → stepSha
       obtain ⟨e1, e2⟩ := rtd_lineOf_nl L nl (X' ++ T) hL hnl
       rw [e0, rtd_more_unfold_line _ (hne _) (hm _), e1, e2, hnb' nl, ih X' hlen hX' T hT]
       simp
+
+/-! ### leading blank lines -/
+
+/-- blank tokens, ending (if any) with a newline token: whole blank lines -/
+def BlankLines (E : List Tok) : Prop := AllBlank E ∧ ∀ t, E.getLast? = some t → t.kind = .newline
+
+theorem rtd_blankLines_nil : BlankLines [] := ⟨blocks_allBlank_nil, by intro t ht; simp at ht⟩
+
+/-- non-empty blank lines: a blank first line, then blank lines -/
+theorem rtd_blankLines_split (E : List Tok) (h : BlankLines E) (hne : E ≠ []) :
+    ∃ L nl E', E = L ++ nl :: E' ∧ NoNL L ∧ nl.kind = .newline ∧ AllBlank (L ++ [nl]) ∧ BlankLines E' := by
+  obtain ⟨L, hL, hE⟩ := rtd_line_split E
+  rcases hE with hE | ⟨nl, E', hE, hnl⟩
+  · subst hE
+    exfalso
+    cases hl : E.getLast? with
+    | none => exact hne (List.getLast?_eq_none_iff.1 hl)
+    | some t => exact hL t (List.mem_of_getLast? hl) (h.2 t hl)
+  · subst hE
+    refine ⟨L, nl, E', rfl, hL, hnl, ?_, ?_, ?_⟩
+    · intro t ht
+      apply h.1 t
+      simp only [List.mem_append, List.mem_singleton, List.mem_cons] at ht ⊢
+      rcases ht with ht | ht | ht
+      · exact Or.inl ht
+      · exact Or.inr (Or.inl ht)
+      · cases ht
+    · intro t ht; exact h.1 t (by simp [ht])
+    · intro t ht
+      apply h.2 t
+      cases E' with
+      | nil => simp at ht
+      | cons a b => rw [List.getLast?_append, List.getLast?_cons_cons, ht]; rfl
+
+theorem rtd_skip_unfold_line (S : List Tok) (hne : S ≠ []) :
+    skipEmptyLines (S.length + 1) S =
+      if (lineOf S).all (fun t => isEmptyTok t.kind) then skipEmptyLines ((afterLine S).length + 1) (afterLine S)
+      else some (⟨lineOf S, (lineOf S).all (fun t => isEmptyTok t.kind), isSingleLineMarker S.head?⟩, afterLine S) := by
+  cases S with
+  | nil => exact absurd rfl hne
+  | cons t0 tl => rw [blocks_skip_unfold, blocks_pullLine_cons]; rfl
+
+theorem rtd_skip_blankLines : ∀ (n : Nat) (E : List Tok), E.length ≤ n → BlankLines E → ∀ R,
+    skipEmptyLines ((E ++ R).length + 1) (E ++ R) = skipEmptyLines (R.length + 1) R := by
+  intro n
+  induction n with
+  | zero =>
+    intro E hl _ R
+    have : E = [] := List.eq_nil_of_length_eq_zero (by omega)
+    subst this; rfl
+  | succ n ih =>
+    intro E hl h R
+    by_cases hne : E = []
+    · subst hne; rfl
+    · obtain ⟨L, nl, E', hE, hL, hnl, hb, hE'⟩ := rtd_blankLines_split E h hne
+      subst hE
+      have e0 : L ++ nl :: E' ++ R = L ++ nl :: (E' ++ R) := by simp
+      obtain ⟨e1, e2⟩ := rtd_lineOf_nl L nl (E' ++ R) hL hnl
+      rw [e0, rtd_skip_unfold_line _ (by simp), e1, e2, (blocks_allBlank_iff_all _).1 hb, if_pos rfl]
+      apply ih E' _ hE'
+      simp only [List.length_append, List.length_cons] at hl; omega
+
+theorem rtd_next_blankLines (E : List Tok) (h : BlankLines E) (R : List Tok) :
+    nextBlock (E ++ R) = nextBlock R := by
+  rw [blocks_next_eq, blocks_next_eq, rtd_skip_blankLines E.length E (Nat.le_refl _) h R]
+
+/-! ### `nextBlock` on a block and what follows it -/
+
+theorem rtd_singleShape_facts (B : List Tok) (h : singleShape B = true) :
+    ∃ t0 tl, B = t0 :: tl ∧ kIsMarker t0.kind = true ∧ NoNL B := by
+  simp only [singleShape, singleShapeK, Bool.and_eq_true, List.all_map] at h
+  cases B with
+  | nil => simp at h
+  | cons t0 tl =>
+    refine ⟨t0, tl, rfl, by simpa using h.1, ?_⟩
+    intro t ht
+    have := List.all_eq_true.1 h.2 t ht
+    simpa using this
+
+theorem rtd_marker_not_blank {k : TK} (h : kIsMarker k = true) : isEmptyTok k = false := by
+  cases k <;> simp [kIsMarker] at h <;> rfl
+
+theorem rtd_not_all_blank_of_head (t0 : Tok) (tl R : List Tok) (h : isEmptyTok t0.kind = false) :
+    ((t0 :: tl) ++ R).all (fun t => isEmptyTok t.kind) = false := by
+  simp [h]
+
+theorem rtd_follow_take_newline (T : List Tok) (h : FollowOK T) : ∀ t ∈ T.take 1, t.kind = .newline := by
+  rcases h with rfl | ⟨nl, F, rfl, hnl, -⟩
+  · intro t ht; simp at ht
+  · intro t ht; simp at ht; subst ht; exact hnl
+
+/-- a single-line block followed by nothing or a newline: it is the next block, the newline is dropped -/
+theorem rtd_next_single (B T : List Tok) (hB : singleShape B = true) (hT : FollowOK T) :
+    nextBlock (B ++ T) = some (B, T.drop 1) := by
+  obtain ⟨t0, tl, hBc, hmk, hnl⟩ := rtd_singleShape_facts B hB
+  have hnb := rtd_marker_not_blank hmk
+  have hhead : ∀ R, (B ++ R).head? = some t0 := by intro R; rw [hBc]; rfl
+  have hsl : isSingleLineMarker (some t0) = true := by rw [rtd_isSingleLineMarker]; exact hmk
+  have hne : ∀ R, B ++ R ≠ [] := by intro R; rw [hBc]; simp
+  rw [blocks_next_eq, rtd_skip_unfold_line _ (hne _), hhead]
+  rcases hT with hT | ⟨nl, F, hT, hnlk, -⟩
+  · subst hT
+    obtain ⟨e1, e2⟩ := rtd_lineOf_noNL B hnl
+    rw [List.append_nil, e1, e2]
+    have : B.all (fun t => isEmptyTok t.kind) = false := by
+      have := rtd_not_all_blank_of_head t0 tl [] hnb
+      rwa [List.append_nil, ← hBc] at this
+    simp only [this, Bool.false_eq_true, if_false, blockMore, hsl, if_true, List.append_nil, List.drop_nil]
+    rw [blocks_trim_id B hnl]
+  · subst hT
+    obtain ⟨e1, e2⟩ := rtd_lineOf_nl B nl F hnl hnlk
+    rw [e1, e2]
+    have : (B ++ [nl]).all (fun t => isEmptyTok t.kind) = false := by
+      rw [hBc]; exact rtd_not_all_blank_of_head t0 tl [nl] hnb
+    simp only [this, Bool.false_eq_true, if_false, blockMore, hsl, if_true, List.append_nil, List.drop_succ_cons,
+      List.drop_zero]
+    rw [blocks_trim_append_newlines B [nl] (by intro t ht; simp at ht; subst ht; exact hnlk), blocks_trim_id B hnl]
+
+/-- a step block (one or more lines) followed by nothing or by a newline and a blank line: it is the
+    next block; its final newline and the blank line are dropped -/
+theorem rtd_next_step (B T : List Tok) (hB : stepShape B = true) (hT : FollowOK T) :
+    nextBlock (B ++ T) = some (B, afterLine (T.drop 1)) := by
+  obtain ⟨L, hL, hnb, hhead, hX⟩ := rtd_stepShape_split B hB
+  obtain ⟨t0, tl, hLc⟩ : ∃ t0 tl, L = t0 :: tl := by
+    cases L with
+    | nil => simp at hnb
+    | cons a b => exact ⟨a, b, rfl⟩
+  have hm : ∀ R, isSingleLineMarker (L ++ R).head? = false := by
+    intro R
+    rw [hLc, List.cons_append, List.head?_cons, rtd_isSingleLineMarker]; exact hhead t0 (by rw [hLc]; rfl)
+  have hne : ∀ R, L ++ R ≠ [] := by intro R; rw [hLc]; simp
+  have hnb' : ∀ nl : Tok, (L ++ [nl]).all (fun t => isEmptyTok t.kind) = false := by
+    intro nl; rw [List.all_append, hnb]; rfl
+  have htrim : trimTrailingNewlines (B ++ T.take 1) = B := by
+    rw [blocks_trim_append_newlines _ _ (rtd_follow_take_newline T hT)]
+    exact rtd_trim_last B (rtd_contShape_last _ _ B hB)
+  rw [blocks_next_eq]
+  rcases hX with hX | ⟨nl, X', hX, hnl, hX'⟩
+  · subst hX
+    rcases hT with hT | ⟨nl, F, hT, hnl, hF⟩
+    · subst hT
+      obtain ⟨e1, e2⟩ := rtd_lineOf_noNL B hL
+      have := rtd_skip_unfold_line (B ++ []) (hne [])
+      rw [List.append_nil] at this ⊢
+      rw [this, e1, e2, hnb]
+      have hmm := hm []
+      rw [List.append_nil] at hmm
+      simp only [Bool.false_eq_true, if_false, blockMore, hmm, List.length_nil, Nat.zero_add, List.drop_nil]
+      simp only [List.take_nil, List.append_nil] at htrim
+      simp [moreLines, pullLine, isSingleLineMarker, afterLine, htrim]
+    · subst hT
+      obtain ⟨e1, e2⟩ := rtd_lineOf_nl B nl F hL hnl
+      rw [rtd_skip_unfold_line _ (hne _), e1, e2, hnb' nl]
+      simp only [Bool.false_eq_true, if_false, blockMore, hm, rtd_more_blank F hF, List.append_nil,
+        List.drop_succ_cons, List.drop_zero]
+      simp only [List.take_succ_cons, List.take_zero] at htrim
+      rw [htrim]
+  · subst hX
+    have e0 : L ++ nl :: X' ++ T = L ++ nl :: (X' ++ T) := by simp
+    obtain ⟨e1, e2⟩ := rtd_lineOf_nl L nl (X' ++ T) hL hnl
+    rw [e0, rtd_skip_unfold_line _ (hne _), e1, e2, hnb' nl]
+    simp only [Bool.false_eq_true, if_false, blockMore, hm, rtd_more_step X'.length X' (Nat.le_refl _) hX' T hT]
+    have e3 : L ++ [nl] ++ (X' ++ List.take 1 T) = L ++ nl :: X' ++ List.take 1 T := by simp
+    rw [e3, htrim]
+
+/-! ### documents: blocks separated by blank lines -/
+
+/-- a separator between two blocks, on kinds: a newline, then one or more blank lines -/
+def sepOKK : List TK → Bool
+  | [] => false
+  | k :: E => k == .newline && E.all isEmptyTok && E.getLast?.any (· == .newline)
+
+/-- what may follow the last block, on kinds: nothing, or a newline and blank material -/
+def tailOKK : List TK → Bool
+  | [] => true
+  | k :: E => k == .newline && E.all isEmptyTok
+
+def sepOK (s : List Tok) : Bool := sepOKK (s.map (·.kind))
+def tailOK (s : List Tok) : Bool := tailOKK (s.map (·.kind))
+
+/-- the token stream of a document: each block with what follows it -/
+def docToks : List (List Tok × List Tok) → List Tok
+  | [] => []
+  | d :: r => d.1 ++ d.2 ++ docToks r
+
+/-- every block has the shape of a block; blocks are separated by a newline and at least one blank
+    line; after the last block nothing or a newline and blank material -/
+def docOK : List (List Tok × List Tok) → Bool
+  | [] => true
+  | [d] => blockShape d.1 && tailOK d.2
+  | d :: x :: r => blockShape d.1 && sepOK d.2 && docOK (x :: r)
+
+theorem rtd_allBlank_of_map {E : List Tok} (h : (E.map (·.kind)).all isEmptyTok = true) : AllBlank E := by
+  rw [List.all_map] at h
+  exact (blocks_allBlank_iff_all E).2 h
+
+theorem rtd_sepOK_facts (s : List Tok) (h : sepOK s = true) :
+    ∃ nl E, s = nl :: E ∧ nl.kind = .newline ∧ BlankLines E ∧ E ≠ [] := by
+  cases s with
+  | nil => simp [sepOK, sepOKK] at h
+  | cons nl E =>
+    simp only [sepOK, List.map_cons, sepOKK, Bool.and_eq_true, beq_iff_eq] at h
+    obtain ⟨⟨h1, h2⟩, h3⟩ := h
+    refine ⟨nl, E, rfl, h1, ⟨rtd_allBlank_of_map h2, ?_⟩, ?_⟩
+    · intro t ht
+      rw [List.getLast?_map, ht] at h3
+      simpa using h3
+    · intro h0; subst h0; simp at h3
+
+theorem rtd_tailOK_facts (s : List Tok) (h : tailOK s = true) :
+    s = [] ∨ ∃ nl E, s = nl :: E ∧ nl.kind = .newline ∧ AllBlank E := by
+  cases s with
+  | nil => exact Or.inl rfl
+  | cons nl E =>
+    simp only [tailOK, List.map_cons, tailOKK, Bool.and_eq_true, beq_iff_eq] at h
+    exact Or.inr ⟨nl, E, rfl, h.1, rtd_allBlank_of_map h.2⟩
+
+theorem rtd_allBlank_lineOf {E : List Tok} (h : AllBlank E) : AllBlank (lineOf E) ∧ AllBlank (afterLine E) := by
+  have := blocks_lineOf_afterLine E
+  rw [← this] at h
+  exact blocks_allBlank_append.1 h
+
+/-- after a separator: the rest of the stream is blank lines and then the next block, both for a
+    single-line block (the newline is dropped) and for a step (the first blank line is dropped too) -/
+theorem rtd_follow_sep (s R : List Tok) (h : sepOK s = true) :
+    FollowOK (s ++ R) ∧ ∃ E1 E2, BlankLines E1 ∧ BlankLines E2 ∧ (s ++ R).drop 1 = E1 ++ R ∧
+      afterLine ((s ++ R).drop 1) = E2 ++ R := by
+  obtain ⟨nl, E, rfl, hnl, hE, hne⟩ := rtd_sepOK_facts s h
+  obtain ⟨L, nl', E', hEs, hL, hnl', hb, hE'⟩ := rtd_blankLines_split E hE hne
+  subst hEs
+  have e0 : L ++ nl' :: E' ++ R = L ++ nl' :: (E' ++ R) := by simp
+  obtain ⟨e1, e2⟩ := rtd_lineOf_nl L nl' (E' ++ R) hL hnl'
+  refine ⟨Or.inr ⟨nl, L ++ nl' :: E' ++ R, by simp, hnl, ?_⟩, L ++ nl' :: E', E', hE, hE', by simp, ?_⟩
+  · rw [e0, e1]; exact (blocks_allBlank_iff_all _).1 hb
+  · simp only [List.cons_append, List.drop_succ_cons, List.drop_zero]
+    rw [e0, e2]
+
+theorem rtd_follow_tail (s : List Tok) (h : tailOK s = true) :
+    FollowOK s ∧ AllBlank (s.drop 1) ∧ AllBlank (afterLine (s.drop 1)) := by
+  rcases rtd_tailOK_facts s h with rfl | ⟨nl, E, rfl, hnl, hE⟩
+  · exact ⟨Or.inl rfl, blocks_allBlank_nil, by simp [afterLine]; exact blocks_allBlank_nil⟩
+  · obtain ⟨h1, h2⟩ := rtd_allBlank_lineOf hE
+    exact ⟨Or.inr ⟨nl, E, rfl, hnl, (blocks_allBlank_iff_all _).1 h1⟩, by simpa using hE, by simpa using h2⟩
+
+theorem rtd_allBlocks_blank (ts : List Tok) (h : AllBlank ts) : allBlocks (ts.length + 1) ts = [] := by
+  rw [blocks_all_unfold, (blocks_next_none ts).2 h]
+
+theorem rtd_next_block (B T : List Tok) (hB : blockShape B = true) (hT : FollowOK T) :
+    nextBlock (B ++ T) = some (B, T.drop 1) ∨ nextBlock (B ++ T) = some (B, afterLine (T.drop 1)) := by
+  simp only [blockShape, Bool.or_eq_true] at hB
+  rcases hB with hB | hB
+  · exact Or.inl (rtd_next_single B T hB hT)
+  · exact Or.inr (rtd_next_step B T hB hT)
+
+/-- The splitter on a document: leading blank lines, then blocks — single `>>` / `=` lines or steps
+    of one or more non-blank lines — separated by a newline and at least one blank line (`docOK`):
+    `allBlocks` returns exactly the blocks, in order. -/
+theorem rtd_allBlocks_doc (ds : List (List Tok × List Tok)) (h : docOK ds = true) :
+    ∀ pre, BlankLines pre →
+      allBlocks ((pre ++ docToks ds).length + 1) (pre ++ docToks ds) = ds.map (·.1) := by
+  induction ds with
+  | nil =>
+    intro pre hpre
+    simp only [docToks, List.append_nil, List.map_nil]
+    exact rtd_allBlocks_blank pre hpre.1
+  | cons d r ih =>
+    intro pre hpre
+    have e0 : pre ++ docToks (d :: r) = pre ++ (d.1 ++ (d.2 ++ docToks r)) := by simp [docToks]
+    rw [e0, blocks_all_unfold, rtd_next_blankLines pre hpre]
+    cases r with
+    | nil =>
+      simp only [docOK, Bool.and_eq_true] at h
+      obtain ⟨hf, hb1, hb2⟩ := rtd_follow_tail d.2 h.2
+      simp only [docToks, List.append_nil, List.map_cons, List.map_nil]
+      rcases rtd_next_block d.1 d.2 h.1 hf with hn | hn <;> rw [hn]
+      · simp only; rw [rtd_allBlocks_blank _ hb1]
+      · simp only; rw [rtd_allBlocks_blank _ hb2]
+    | cons x r' =>
+      simp only [docOK, Bool.and_eq_true] at h
+      obtain ⟨hf, E1, E2, hE1, hE2, e1, e2⟩ := rtd_follow_sep d.2 (docToks (x :: r')) h.1.2
+      simp only [List.map_cons]
+      rcases rtd_next_block d.1 _ h.1.1 hf with hn | hn <;> rw [hn]
+      · simp only; rw [e1, ih h.2 E1 hE1]; rfl
+      · simp only; rw [e2, ih h.2 E2 hE2]; rfl
 
 end Cook
